@@ -114,7 +114,7 @@ def run_real(sc: Scenario, mode, workdir, serial=True, cpus=2, rids=None, qids=N
         exts = [SeedCatcher(seedpath)] + list(extensions or [])
         Program(args, exts).run()
     except BaseException as e:  # noqa
-        if isinstance(e, (KeyboardInterrupt, MemoryError)):
+        if isinstance(e, (KeyboardInterrupt, MemoryError)) or getattr(e, "harness_interrupt", False):
             raise
         err = type(e).__name__
         try:
@@ -333,7 +333,7 @@ def readback_all(paths, rpath, qpath):
             qs = [q.trim() for q in CmapReader().readQueries(f)]
         reader = XmapReader(XmapAlignmentPairWithDistanceParser(refs, qs))
     except BaseException as e:  # noqa
-        if isinstance(e, (KeyboardInterrupt, MemoryError)):
+        if isinstance(e, (KeyboardInterrupt, MemoryError)) or getattr(e, "harness_interrupt", False):
             raise
         return {n: {"error": type(e).__name__ + ": " + str(e)[:200]} for n in paths}
     for n, path in sorted(paths.items()):
@@ -343,7 +343,7 @@ def readback_all(paths, rpath, qpath):
             with open(path) as f:
                 out[n] = {"alignments": _summarise_alignments(reader.readAlignments(f))}
         except BaseException as e:  # noqa
-            if isinstance(e, (KeyboardInterrupt, MemoryError)):
+            if isinstance(e, (KeyboardInterrupt, MemoryError)) or getattr(e, "harness_interrupt", False):
                 raise
             out[n] = {"error": type(e).__name__ + ": " + str(e)[:200]}
     return out
